@@ -230,6 +230,13 @@ func (t *FSTree) readHeader(id oid.ID, f *os.File, buf []byte) ([]byte, io.ReadS
 				return nil, f, io.ErrUnexpectedEOF
 			}
 			size := min(offset+int(l), offset+objectwire.NonPayloadFieldsBufferLength)
+			if size > len(buf) {
+				// no room behind offset (it can exceed the buffer half after
+				// refill), move the entry to the buffer start
+				n = copy(buf, buf[offset:n])
+				size -= offset
+				offset = 0
+			}
 			if n < size {
 				_, err = io.ReadFull(f, buf[n:size])
 				if err != nil {
